@@ -75,6 +75,44 @@ func mutateChartFiles(rng *rand.Rand, files map[string][]byte, unbounded bool) s
 	if unbounded {
 		r = 60
 	}
+	// the legacy dependency files are mutation targets of their own: always when the chart carries
+	// them, sometimes by adding them to a chart that does not (apiVersion v1 or v2)
+	_, hasReq := files["requirements.yaml"]
+	if !unbounded && (hasReq && rng.Intn(100) < 40 || !hasReq && rng.Intn(100) < 6) {
+		how := ""
+		if !hasReq {
+			files["requirements.yaml"] = []byte(handRequirements)
+			how = "(added)"
+			if rng.Intn(2) == 0 {
+				// make it a Helm 2 style chart: apiVersion v1, no dependencies in Chart.yaml
+				if t := parseTree(files["Chart.yaml"]); t != nil && t.kind == kMap {
+					t.set("apiVersion", str("v1"))
+					if rng.Intn(2) == 0 {
+						for i, k := range t.keys {
+							if k.raw == "dependencies" {
+								t.keys = append(t.keys[:i:i], t.keys[i+1:]...)
+								t.vals = append(t.vals[:i:i], t.vals[i+1:]...)
+								break
+							}
+						}
+					}
+					files["Chart.yaml"] = render(t, styBlock)
+					how = "(added,v1)"
+				}
+			}
+		}
+		if rng.Intn(5) == 0 {
+			if files["requirements.lock"] == nil {
+				files["requirements.lock"] = []byte(handRequirementsLock)
+			}
+			b, d := mutateDoc(rng, files["requirements.lock"], []byte(handRequirements), false)
+			files["requirements.lock"] = b
+			return "requirements.lock" + how + ":" + d
+		}
+		b, d := mutateDoc(rng, files["requirements.yaml"], []byte(handChartYAML), false)
+		files["requirements.yaml"] = b
+		return "requirements.yaml" + how + ":" + d
+	}
 	switch {
 	case r < 28:
 		b, d := mutateDoc(rng, files["Chart.yaml"], []byte(handChartYAML), false)
@@ -296,8 +334,13 @@ func untar(tgz []byte, dest string) (root string, files map[string][]byte, ok bo
 func runChart(x *exec, rng *rand.Rand) {
 	cp := getCorpus()
 	seed := cp.charts[rng.Intn(len(cp.charts))]
-	if rng.Intn(100) < 35 {
+	switch r := rng.Intn(100); {
+	case r < 30:
 		seed = cp.charts[len(cp.charts)-1] // the handcrafted parent chart (import-values, subchart schemas)
+	case r < 38:
+		seed = cp.charts[len(cp.charts)-3] // legacy chart: requirements.yaml is the only dependency source
+	case r < 44:
+		seed = cp.charts[len(cp.charts)-2] // legacy chart: requirements.yaml combined with Chart.yaml dependencies
 	}
 	files := map[string][]byte{}
 	for n, b := range seed.files {
@@ -375,6 +418,19 @@ func runChart(x *exec, rng *rand.Rand) {
 		ch = chA
 	case chD != nil && x.lastOK("loader.LoadDir"):
 		ch = chD
+	}
+	if _, legacy := onDisk["requirements.yaml"]; legacy {
+		// evidence that Helm 2 style dependency files really travel through the pipeline
+		x.res.Stat("chart_inputs_with_requirements.yaml", 1)
+		if strings.Contains(mut, "requirements.") {
+			x.res.Stat("chart_inputs_with_mutated_requirements", 1)
+		}
+		if ch != nil {
+			x.res.Stat("chart_loaded_with_requirements.yaml", 1)
+			if strings.Contains(mut, "requirements.") {
+				x.res.Stat("chart_loaded_with_mutated_requirements", 1)
+			}
+		}
 	}
 	if ch == nil {
 		return
